@@ -7,7 +7,7 @@ Then applies it to /repo, runs the named quick checks, undoes it, and stores eve
 import json, os, subprocess, sys, shutil
 
 ENV = dict(os.environ, GOFLAGS="-mod=mod", GOPROXY="off", GOSUMDB="off", GOTOOLCHAIN="local")
-WT = "/tmp/wt/confirm"
+WT = "/tmp/wt/confirm" + os.environ.get("SEED_TAG", "")
 PRIVATE = os.environ.get("SEED_PRIVATE") == "1"
 private_det = {}
 
@@ -51,9 +51,10 @@ def main():
         if ok and PRIVATE:
             # SEED_PRIVATE=1: run the checks in a private copy of /verif against the patched scratch worktree, so that
             # /repo's working tree stays untouched (other runs may be reading it)
-            VC = "/tmp/vc/verif"
-            shutil.rmtree("/tmp/vc", ignore_errors=True)
-            os.makedirs("/tmp/vc")
+            VCR = "/tmp/vc" + os.environ.get("SEED_TAG", "")
+            VC = VCR + "/verif"
+            shutil.rmtree(VCR, ignore_errors=True)
+            os.makedirs(VCR)
             sh(["rsync", "-a", "--exclude", ".git", "--exclude", ".build", "--exclude", "replays", "/verif/", VC + "/"])
             gm = open(VC + "/go.mod").read().replace("=> /repo", "=> " + WT)
             open(VC + "/go.mod", "w").write(gm)
@@ -61,7 +62,7 @@ def main():
                 rc, out = sh(["./run.sh", c, "quick"], cwd=VC, timeout=3600)
                 lines = [l for l in out.splitlines() if "VIOLATION" in l or "sub-property=" in l or l.startswith("INFRA")]
                 private_det[c] = {"exit": rc, "first_lines": [l[:300].replace(VC, "/verif") for l in lines[:4]]}
-            shutil.rmtree("/tmp/vc", ignore_errors=True)
+            shutil.rmtree(VCR, ignore_errors=True)
     finally:
         sh(["git", "-C", "/repo", "worktree", "remove", "--force", WT])
     ok = all(res.get(x) for x in ("clean_plus_demo_passes", "patch_applies", "builds", "suite_passes_with_patch", "patch_plus_demo_fails"))
